@@ -23,8 +23,12 @@ pub const MEMLIMIT_SENSITIVE: usize = 1073741824;
 /// crypto_pwhash_argon2i_OPSLIMIT_MIN (only reachable with ALG_ARGON2I13)
 const ARGON2I_OPSLIMIT_MIN: u64 = 3;
 
+/// Branch-free in front of the uninterpreted function: the argument checks are evaluated into one flag, the function is
+/// evaluated unconditionally and the flag only selects Ok/Err at the very end (a symbolic early return in front of a `uf` call
+/// would leave a symbolic call count behind — units/README.md rule 3b). Evaluating a deterministic function on rejected
+/// arguments is unobservable.
 pub fn pwhash(out_len: usize, password: &[u8], salt: &[u8], opslimit: u64, memlimit: usize, alg: i32) -> Result<Vec<u8>> {
-    // the wrapper's checks
+    // lengths are concrete in every harness: these three checks never branch symbolically
     if !(BYTES_MIN..=BYTES_MAX).contains(&out_len) {
         return Err(SodiumError::InvalidInput("pwhash output length"));
     }
@@ -34,21 +38,12 @@ pub fn pwhash(out_len: usize, password: &[u8], salt: &[u8], opslimit: u64, memli
     if salt.len() != SALTBYTES {
         return Err(SodiumError::InvalidInput("salt must be exactly 16 bytes"));
     }
-    if !(OPSLIMIT_MIN..=OPSLIMIT_MAX).contains(&opslimit) {
-        return Err(SodiumError::InvalidInput("opslimit out of range"));
-    }
-    if !(MEMLIMIT_MIN..=MEMLIMIT_MAX).contains(&memlimit) {
-        return Err(SodiumError::InvalidInput("memlimit out of range"));
-    }
-    // the C function's checks that the wrapper does not already make
-    if alg != ALG_ARGON2ID13 && alg != ALG_ARGON2I13 {
-        return Err(SodiumError::OperationError("password hashing failed"));
-    }
-    if alg == ALG_ARGON2I13 && opslimit < ARGON2I_OPSLIMIT_MIN {
-        return Err(SodiumError::OperationError("password hashing failed"));
-    }
-    assert!(alg == ALG_ARGON2ID13, "[model] capacity: only Argon2id is modelled");
     assert!(out_len <= vmodel_core::OCAP, "[model] capacity: pwhash output longer than OCAP");
+    // the wrapper's range checks ...
+    let mut valid = (OPSLIMIT_MIN..=OPSLIMIT_MAX).contains(&opslimit) & (MEMLIMIT_MIN..=MEMLIMIT_MAX).contains(&memlimit);
+    // ... and the C function's checks that the wrapper does not already make
+    valid &= (alg == ALG_ARGON2ID13) | ((alg == ALG_ARGON2I13) & (opslimit >= ARGON2I_OPSLIMIT_MIN));
+    assert!(alg != ALG_ARGON2I13, "[model] capacity: only Argon2id is modelled");
     // argon2id_hash_raw(t = opslimit, m = memlimit / 1024 KiB (floor), lanes = 1, pw, salt)
     let mut m: Buf<28> = Buf::new();
     m.push(&((memlimit / 1024) as u32).to_be_bytes());
@@ -57,5 +52,9 @@ pub fn pwhash(out_len: usize, password: &[u8], salt: &[u8], opslimit: u64, memli
     m.push(salt);
     let mut output = vec![0u8; out_len];
     uf(alg::ARGON2ID, true, password, m.as_slice(), &mut output);
-    Ok(output)
+    if valid {
+        Ok(output)
+    } else {
+        Err(SodiumError::InvalidInput("opslimit / memlimit out of range"))
+    }
 }
